@@ -27,16 +27,51 @@ type Attr struct {
 
 // UnmarshalXML is a custom unmarshal function used by xml.Unmarshal to
 // transform generic XML content into hierarchical Node structure.
+//
+// The element is read token by token with an explicit stack: how deep generic content
+// is nested is chosen by the peer, and decoding it must not grow the goroutine stack
+// with that depth (a recursive decoder is brought down by a few megabytes of nested
+// elements: fatal stack overflow).
 func (n *Node) UnmarshalXML(d *xml.Decoder, start xml.StartElement) error {
-	// Assign	"n.Attrs = start.Attr", without repeating xmlns in attributes:
-	for _, attr := range start.Attr {
-		// Do not repeat xmlns, it is already in XMLName
-		if attr.Name.Local != "xmlns" {
-			n.Attrs = append(n.Attrs, attr)
+	type frame struct {
+		node *Node
+		text []byte
+	}
+	open := func(node *Node, se xml.StartElement) *frame {
+		node.XMLName = se.Name
+		// Assign	"node.Attrs = se.Attr", without repeating xmlns in attributes:
+		for _, attr := range se.Attr {
+			// Do not repeat xmlns, it is already in XMLName
+			if attr.Name.Local != "xmlns" {
+				node.Attrs = append(node.Attrs, attr)
+			}
+		}
+		return &frame{node: node}
+	}
+	stack := []*frame{open(n, start)}
+	for len(stack) > 0 {
+		tok, err := d.Token()
+		if err != nil {
+			return err
+		}
+		top := stack[len(stack)-1]
+		switch t := tok.(type) {
+		case xml.StartElement:
+			stack = append(stack, open(&Node{}, t))
+		case xml.CharData:
+			// the character data directly inside the element, children excluded
+			top.text = append(top.text, t...)
+		case xml.EndElement:
+			top.node.Content = string(top.text)
+			stack = stack[:len(stack)-1]
+			if len(stack) > 0 {
+				// a child joins its parent once it is complete
+				parent := stack[len(stack)-1].node
+				parent.Nodes = append(parent.Nodes, *top.node)
+			}
 		}
 	}
-	type node Node
-	return d.DecodeElement((*node)(n), &start)
+	return nil
 }
 
 // MarshalXML is a custom XML serializer used by xml.Marshal to serialize a
